@@ -109,7 +109,12 @@ fn main() {
         "C18" => c18::run(&cfg, &mut out),
         "C01" => c01::run(&cfg, &mut out),
         "C04" => c04::run(&cfg, &mut out),
-        "C10" => c10::run(&cfg, &mut out),
+        "C10" => {
+            c10::run(&cfg, &mut out);
+            // what a flush hands to the forwarder must reach the agent as whole frames, each once: the forwarder's client
+            // state machine (C09's Model/StatsdFwd stream D) is part of "every delta is sent" (after seed C10-7)
+            c09::run_forwarder_stream(&cfg, &mut out);
+        }
         "C15" => c15::run(&cfg, &mut out),
         "C11" => c11::run(&cfg, &mut out),
         other => {
